@@ -106,7 +106,7 @@ Fixpoint fails (k : N) (l : list N) : list (N * N) :=
 
 (** * the starting point of symmetric-cone problems ([Newton/Init.v])
     [h] = diagonal of the identity scaling (0 on zero-cone rows, 1 elsewhere).
-    0 = both equalities hold to the tolerance, 1 = primal rows, 2 = dual equality *)
+    0 = both equalities hold to the tolerance, 1 = primal rows, 3 = dual equality *)
 Definition c_init (tolbits : Z) (n m : N) (Ptriu A : list trip) (q b h : list dy)
            (x s z : list dy) : N :=
   let P := symT Ptriu in
@@ -117,7 +117,7 @@ Definition c_init (tolbits : Z) (n m : N) (Ptriu A : list trip) (q b h : list dy
   let ed := vaddd (vaddd (spmv n P x) (spmv_t n A z)) q in
   let sd := vaddd (vaddd (spmv n (absT P) (absv x)) (spmv_t n (absT A) (absv z))) (absv q) in
   if negb (vsmall tolbits fl ep sp) then 1%N
-  else if negb (vsmall tolbits fl ed sd) then 2%N
+  else if negb (vsmall tolbits fl ed sd) then 3%N
   else 0%N.
 
 (** * one predictor-corrector iteration ([Newton/Step.v]): residual definitions, the affine and
